@@ -6,6 +6,9 @@ import ChalkModel.Wire
 import ChalkModel.Shift
 import ChalkModel.Flags
 import ChalkModel.OpsMatch
+import ChalkModel.OpsAggregate
+import ChalkModel.OpsInPlace
+import ChalkModel.OpsCoherence
 
 namespace Chalk
 open Sexp
@@ -52,6 +55,15 @@ def dispatch (req : Sexp) : Sexp :=
   | some r => r
   | none =>
   match opsMatch req with
+  | some r => r
+  | none =>
+  match opsAggregate req with
+  | some r => r
+  | none =>
+  match opsInPlace req with
+  | some r => r
+  | none =>
+  match opsCoherence req with
   | some r => r
   | none => badOp
 
